@@ -120,7 +120,7 @@ func runC14(c *fw.Ctx) {
 	}
 	plans := []plan{{"btree", 5}, {"mem", 4}}
 	if c.Thorough() {
-		plans = []plan{{"btree", 6}, {"mem", 5}, {"disk", 3}}
+		plans = []plan{{"btree", 7}, {"mem", 5}, {"disk", 4}}
 	}
 	// catalogue of modification lists: every ordered pair and triple over {create existing, create new, drop existing,
 	// drop unknown, update existing, update unknown, drop f, create f again} - all-or-nothing and "exactly the named
